@@ -64,7 +64,17 @@ fn alphabet(n: usize, tier: Tier) -> Vec<Dev> {
             s.variants[i].serialize = vec!["zz".into(), "longer".into()];
             true
         }));
-        for l in ["t", "tttt", "É", "a{{b}}"] {
+        // an EMPTY literal is still the name (to_string = "" -> "", a lone serialize = "" -> "")
+        d.push(dev(format!("v{}.serialize=[\"\"] (only spelling)", i), &[&format!("ser{}", i)], move |s| {
+            s.variants[i].serialize = vec![String::new()];
+            true
+        }));
+        d.push(dev(format!("v{}.to_string=\"\" + serialize=[\"zz\"]", i), &[&format!("tos{}", i), &format!("ser{}", i)], move |s| {
+            s.variants[i].to_string = Some(String::new());
+            s.variants[i].serialize = vec!["zz".into()];
+            true
+        }));
+        for l in ["t", "tttt", "É", "a{{b}}", ""] {
             d.push(dev(format!("v{}.to_string={:?}", i, l), &[&format!("tos{}", i)], move |s| {
                 s.variants[i].to_string = Some(l.to_string());
                 true
